@@ -549,8 +549,9 @@ func (s plainSel) match(f gts.Feature) bool {
 		lit = s.lit
 	}
 	if s.name == "" {
+		// every value of every qualifier (the qualifier names themselves are not values)
 		for _, row := range f.Props {
-			for _, v := range row {
+			for _, v := range row[1:] {
 				if strings.Contains(v, lit) {
 					return true
 				}
@@ -929,11 +930,15 @@ func propC08(r *Run) {
 			}
 		}
 		c08LocatorString(r, string(mutate(r.rng, []byte(s), c08LocAlphabet)), seq)
+		if m != nil && t%4 == 0 {
+			// a second '@': the split is at the first one, so the rest is not a modifier
+			c08LocatorString(r, s+"@"+genMod(r.rng, 5).String(), seq)
+		}
 		if t < 4 {
 			r.sample("locator " + s)
 		}
 	}
-	for _, s := range []string{"", "@", "@@", "^@^", "@^", "gene@", "gene@@^", "3..5x", "12abc", "3..", "<3..5", "3..>5>", "complement(3..5", "complement(complement(3..5))",
+	for _, s := range []string{"", "@", "@@", "^@^", "@^", "gene@", "gene@@^", "gene@^@$", "5@^+1@$-1", "@^@$", "^..$@^@^", "3..5x", "12abc", "3..", "<3..5", "3..>5>", "complement(3..5", "complement(complement(3..5))",
 		"complement(7)", "^..$@^..$", "/", "//", "gene/", "gene//note=a", "gene/note=a/product=b", `ge\/ne/note`, "gene/note=(", "gene/=a", "5@$-1..$", "^+1x"} {
 		c08LocatorString(r, s, genSeq(r.rng, 12, 5, 1))
 	}
